@@ -61,6 +61,35 @@ static void add_encoders(Case& c, const json& v, int fam) {
             break;
     }
 }
+// Stream sinks: output that fills the sink's internal buffer (16384 bytes) exactly at every kind of write (single byte head,
+// multi-byte append), for every alignment of the content against the buffer end, in every format.
+static const int STREAM_LO = 16384 - 56, STREAM_HI = 16384 + 24, NSTREAMFMT = 7, NSTREAMSHAPE = 3;
+static const char* STREAMFMT[NSTREAMFMT] = {"cbor", "msgpack", "ubjson", "bson", "json", "json-pretty", "csv"};
+static json stream_value(int shape, int n, bool object_root) {
+    json v;
+    if (shape == 0) { v = json(jsoncons::json_array_arg); v.push_back(json(jsoncons::byte_string_arg, std::vector<uint8_t>(size_t(n), 0x61))); v.push_back("hello world"); v.push_back(1); v.push_back(-1.5); }
+    else if (shape == 1) { v = json(jsoncons::json_array_arg); v.push_back(std::string(size_t(n), 'a')); v.push_back(7); v.push_back(json(jsoncons::json_array_arg)); v.push_back(true); v.push_back("tail"); }
+    else { v = json(jsoncons::json_object_arg); v.try_emplace("k", std::string(size_t(n), 'a')); json z(jsoncons::json_array_arg); z.push_back(1); z.push_back(2); v.try_emplace("z", z); v.try_emplace("zz", "end"); }
+    if (object_root && !v.is_object()) { json o(jsoncons::json_object_arg); o.try_emplace("r", v); return o; }
+    return v;
+}
+static void add_stream(Case& c, int fmt, int shape, int n) {
+    json v = stream_value(shape, n, fmt == 3);
+    c.entries.push_back([v, fmt] {
+        std::ostringstream os;
+        switch (fmt) {
+            case 0: jsoncons::cbor::encode_cbor(v, os); break;
+            case 1: jsoncons::msgpack::encode_msgpack(v, os); break;
+            case 2: jsoncons::ubjson::encode_ubjson(v, os); break;
+            case 3: jsoncons::bson::encode_bson(v, os); break;
+            case 4: v.dump(os); break;
+            case 5: v.dump_pretty(os); break;
+            default: { json rows(jsoncons::json_array_arg); rows.push_back(v.is_array() ? v : json(jsoncons::json_array_arg)); if (rows[0].empty()) { rows[0].push_back(v.is_object() ? v["k"] : v); } jsoncons::csv::csv_options o; o.assume_header(false); jsoncons::csv::encode_csv(rows, os, o); break; }
+        }
+        std::string s = os.str(); (void)s;
+    });
+}
+
 int main(int argc, char** argv) {
     Args a(argc, argv);
     bool thorough = a.get("tier", "quick") == "thorough";
@@ -71,7 +100,14 @@ int main(int argc, char** argv) {
     if (thorough) { partners.clear(); for (size_t i = 0; i < (size_t)nl; i += 7) partners.push_back(i); }
     long long nvalues = nl + 4 * nl * (long long)partners.size();
     long long total = nvalues * NFAM;
+    long long nstream = (long long)(STREAM_HI - STREAM_LO + 1) * NSTREAMFMT * NSTREAMSHAPE;
     auto gen = [&](long long idx, Case& c) {
+        if (idx >= total) {
+            long long x = idx - total; int fmt = int(x % NSTREAMFMT); x /= NSTREAMFMT; int sh = int(x % NSTREAMSHAPE); int n = STREAM_LO + int(x / NSTREAMSHAPE);
+            c.sig = std::string("ENC|stream-") + STREAMFMT[fmt] + "|" + std::to_string(sh) + "/" + std::to_string(n);
+            c.what = std::string(STREAMFMT[fmt]) + " encoder into a std::ostream, value shape " + std::to_string(sh) + " with a " + std::to_string(n) + "-byte string";
+            add_stream(c, fmt, sh, n); return;
+        }
         int fam = int(idx % NFAM); long long i = idx / NFAM;
         json v; std::string d;
         if (i < nl) { v = g_leaves[i]; d = "0/" + std::to_string(i); }
@@ -79,6 +115,11 @@ int main(int argc, char** argv) {
         c.sig = std::string("ENC|") + FAM[fam] + "|" + d; c.what = std::string(FAM[fam]) + " encoder on value " + mv_text(to_mv(v)).substr(0, 200);
         add_encoders(c, v, fam);
     };
+    if (a.replay && split(a.sig, '|')[1].compare(0, 7, "stream-") == 0) {
+        auto p = split(a.sig, '|'); auto q = split(p[2], '/'); int fmt = 0; for (int k = 0; k < NSTREAMFMT; ++k) if (p[1].substr(7) == STREAMFMT[k]) fmt = k;
+        run_cases(1, 0, 1, [&](long long, Case& c) { c.sig = p[0] + "|" + p[1] + "|" + p[2]; c.what = "stream encoder"; add_stream(c, fmt, atoi(q[0].c_str()), atoi(q[1].c_str())); });
+        out().flush(); return 0;
+    }
     if (a.replay) {
         auto p = split(a.sig, '|'); auto q = split(p[2], '/'); json v;
         if (q[0] == "0") v = g_leaves[atoi(q[1].c_str())]; else v = shape(atoi(q[0].c_str()), g_leaves[atoi(q[1].c_str())], g_leaves[atoi(q[2].c_str())]);
@@ -86,7 +127,7 @@ int main(int argc, char** argv) {
         run_cases(1, 0, 1, [&](long long, Case& c) { c.sig = std::string("ENC|") + FAM[fam] + "|" + d; c.what = std::string(FAM[fam]) + " encoder on value " + mv_text(to_mv(v)).substr(0, 200); add_encoders(c, v, fam); });
         out().flush(); return 0;
     }
-    run_cases(total, a.slice, a.nslices, gen);
+    run_cases(total + nstream, a.slice, a.nslices, gen);
     out().cls("encoders"); if (a.slice == 0) { out().gauge("leaf_values", nl); out().sample("every storage kind x every semantic tag (22) x ill- and well-typed contents, alone and in 4 container shapes, through 34 encoder entries"); }
     out().flush();
     return 0;
